@@ -138,6 +138,150 @@ vh::Outcome run_c03(const vh::Case& c, bool with_faults) {
     return out;
 }
 
+// ================================================================================================ C04 cow_guarded
+using COW = lg::cow_guarded<Tracked>;
+
+struct Commit { uint64_t bit; long lock_call, lock_ret, rel_call = -1, rel_ret = -1; bool cancelled = false; bool committed = false; };
+
+vh::Outcome run_c04(const vh::Case& c) {
+    reset_case_globals();
+    vrt::tstats().dtor_hb_exempt = true;
+    vh::Outcome out;
+    std::deque<Commit> commits;
+    std::vector<uint64_t> order;            // committed bits in commit order (release call order; writers are serialised)
+    uint64_t cancelled_bits = 0;
+    bool lbl_reread_after_commit = false, lbl_cancel_while_blocked = false, lbl_moved = false, lbl_snapshot_outlived = false;
+    int writers_waiting = 0;
+    long commits_done = 0;
+    long ctor0 = 0;
+    out.res = vrt::run(c.sched, [&] {
+        {
+            COW cow(uint64_t(0));
+            ctor0 = vrt::tstats().ctor - vrt::tstats().dtor;   // live payload objects belonging to the wrapper itself
+            auto check_snapshot_value = [&](uint64_t v, long call_step, const char* who) {
+                if (v & cancelled_bits) vrt::fail("cancelled-visible", std::string(who) + " observed a modification that was cancelled");
+                if (!mask_in_chain(v, order, 0)) {
+                    // the commit that produced v may be in flight (published but its release has not returned): accept chain + in-flight bit
+                    bool ok = false;
+                    for (auto& cm : commits) if (!cm.cancelled && cm.rel_call >= 0 && !cm.committed) { std::vector<uint64_t> o2 = order; o2.push_back(cm.bit); if (mask_in_chain(v, o2, 0)) ok = true; }
+                    if (!ok) vrt::fail("not-a-chain", std::string(who) + " observed a value outside the single sequence of committed states (lost update)");
+                }
+                uint64_t need = 0;
+                for (auto& cm : commits) if (cm.committed && cm.rel_ret >= 0 && cm.rel_ret < call_step) need |= cm.bit;
+                if ((v & need) != need) vrt::fail("stale-snapshot", std::string(who) + " started after a commit returned but does not contain it");
+            };
+            int nbit = 0;
+            for (size_t i = 0; i < c.fibers.size(); ++i) {
+                if (c.fibers[i].empty()) continue;
+                vrt::spawn([&, i] {
+                    std::vector<std::pair<COW::shared_handle, uint64_t>> kept;    // long-lived snapshots of this fiber
+                    for (auto& op : c.fibers[i]) {
+                        int kind = op.code % 6;
+                        if (kind <= 2) {
+                            // -------------------------------------------------------- writer: commit (0,1) or cancel (2)
+                            commits.emplace_back();
+                            Commit& cm = commits.back();
+                            cm.bit = uint64_t(1) << (nbit++ % 60);
+                            cm.lock_call = vrt::now_step();
+                            writers_waiting++;
+                            COW::handle h = cow.lock();
+                            writers_waiting--;
+                            cm.lock_ret = vrt::now_step();
+                            if (!h) vrt::fail("null-handle", "cow_guarded::lock returned a null handle");
+                            uint64_t init = h->read();
+                            // interval bounds for the initial value
+                            uint64_t lower = 0, upper = 0;
+                            for (auto& o : commits) {
+                                if (&o == &cm || o.cancelled) continue;
+                                if (o.committed && o.rel_ret >= 0 && o.rel_ret < cm.lock_call) lower |= o.bit;
+                                if (o.rel_call >= 0 && o.rel_call < cm.lock_ret) upper |= o.bit;
+                            }
+                            if ((init & lower) != lower) vrt::fail("write-handle-stale", "write handle does not start from the latest committed value (a commit that had returned is missing)");
+                            if (init & ~upper) vrt::fail("write-handle-future", "write handle contains a modification that had not been released when lock() returned");
+                            if (init & cancelled_bits) vrt::fail("cancelled-visible", "write handle starts from a cancelled modification");
+                            if (!mask_in_chain(init, order, 0)) vrt::fail("not-a-chain", "write handle starts from a value outside the sequence of committed states");
+                            if (init != (order.empty() ? 0 : [&] { uint64_t a = 0; for (auto b : order) a |= b; return a; }()))
+                                vrt::fail("write-handle-stale", "write handle does not start from the latest committed value although writers are serialised");
+                            h->or_bits(cm.bit);
+                            for (int s = 0; s < op.b % 3; ++s) vrt::step();
+                            if (kind == 2) {
+                                cm.cancelled = true; cancelled_bits |= cm.bit;
+                                if (writers_waiting > 0) lbl_cancel_while_blocked = true;
+                                h.cancel();
+                                if (h) vrt::fail("cancel-not-null", "handle is non-null after cancel()");
+                                if (vrt::me().held != 0) vrt::fail("cancel-holds-lock", "the writer lock is still held after cancel()");
+                                if (op.a & 1) {
+                                    // the cancelled handle object stays alive while this fiber writes again
+                                    commits.emplace_back();
+                                    Commit& c2 = commits.back();
+                                    c2.bit = uint64_t(1) << (nbit++ % 60);
+                                    c2.lock_call = vrt::now_step();
+                                    COW::handle h2 = cow.lock();
+                                    c2.lock_ret = vrt::now_step();
+                                    h2->or_bits(c2.bit);
+                                    c2.rel_call = vrt::now_step(); order.push_back(c2.bit);
+                                    h2.reset();
+                                    c2.rel_ret = vrt::now_step(); c2.committed = true; commits_done++;
+                                }
+                            } else {
+                                cm.rel_call = vrt::now_step(); order.push_back(cm.bit);
+                                if (op.a & 1) { lbl_moved = true; COW::handle h2(std::move(h)); if (h) vrt::fail("move-not-null", "moved-from write handle is non-null"); h2.reset(); }
+                                else h.reset();
+                                cm.rel_ret = vrt::now_step(); cm.committed = true; commits_done++;
+                                if (vrt::me().held != 0) vrt::fail("commit-holds-lock", "the writer lock is still held after the handle was released");
+                            }
+                        } else {
+                            // -------------------------------------------------------- reader: snapshot
+                            long call = vrt::now_step();
+                            long cd0 = commits_done;
+                            long b0 = vrt::me().blocking_ops;
+                            COW::shared_handle s = (op.a % 4 == 0) ? cow.lock_shared() : (op.a % 4 == 1) ? cow.try_lock_shared()
+                                                 : (op.a % 4 == 2) ? cow.try_lock_shared_for(std::chrono::milliseconds(1)) : cow.try_lock_shared_until(std::chrono::steady_clock::time_point::max());
+                            if (vrt::me().blocking_ops != b0) vrt::fail("reader-blocked", "a cow_guarded read acquisition executed a blocking operation");
+                            if (!s) vrt::fail("null-handle", "cow_guarded shared acquisition returned null");
+                            uint64_t v1 = s->read();
+                            check_snapshot_value(v1, call, "a snapshot");
+                            for (int k = 0; k < op.b % 4; ++k) vrt::step();
+                            uint64_t v2 = s->read();
+                            if (v1 != v2) vrt::fail("snapshot-changed", "the contents of a snapshot changed while it was held");
+                            if (commits_done != cd0) lbl_reread_after_commit = true;
+                            if (kind == 5 && kept.size() < 3) kept.emplace_back(s, v1);
+                        }
+                        for (auto& kp : kept) {
+                            uint64_t v = kp.first->read();
+                            if (v != kp.second) vrt::fail("snapshot-changed", "the contents of an old snapshot changed after later commits");
+                            uint64_t cur = 0; for (auto b : order) cur |= b;
+                            if (cur != kp.second) lbl_snapshot_outlived = true;
+                        }
+                    }
+                });
+            }
+            vrt::join_all();
+            uint64_t fin = cow.lock_shared()->read();
+            uint64_t exp = 0; for (auto b : order) exp |= b;
+            if (fin != exp) vrt::fail("final-value", "final committed value is not the union of all commits (lost update or cancelled data published)");
+            { COW::handle h = cow.lock(); if (h->read() != exp) vrt::fail("final-value", "write handle after the run does not start from the final value"); h.cancel(); }
+        }
+        long live = vrt::tstats().ctor - vrt::tstats().dtor;
+        if (live != 0) vrt::fail("payload-leak", std::to_string(live) + " payload object(s) constructed by cow_guarded were never destroyed (or destroyed twice)");
+    });
+    if (lbl_reread_after_commit) out.labels.push_back("reread-after-commit");
+    if (lbl_snapshot_outlived) out.labels.push_back("old-snapshot-outlived-commit");
+    if (lbl_cancel_while_blocked) out.labels.push_back("cancel-while-writer-blocked");
+    if (lbl_moved) out.labels.push_back("moved-write-handle");
+    out.nontrivial = lbl_reread_after_commit || lbl_snapshot_outlived || lbl_cancel_while_blocked;
+    return out;
+}
+
+vh::GenSpec c04_spec(bool thorough) {
+    vh::GenSpec g; g.nfibers = 4; g.max_ops = thorough ? 6 : 4; g.ncodes = 6; g.amax = 4; g.bmax = 4;
+    g.sched_len = thorough ? 256 : 176; g.aux_len = 16;
+    return g;
+}
+vh::Register r_c04("C04", c04_spec(false), c04_spec(true), run_c04,
+                   "generated cow_guarded writers (lock, modify, release / cancel, handle moves, re-lock while a cancelled handle object is alive) and readers taking snapshots that they keep across "
+                   "later commits x generated schedule; non-trivial = a snapshot was re-read after a later commit, or a cancel happened while another writer was blocked in lock()");
+
 vh::GenSpec c03_spec(bool thorough) {
     vh::GenSpec g;
     g.nfibers = 4; g.max_ops = thorough ? 6 : 4; g.ncodes = 2; g.amax = 4; g.bmax = 4;
